@@ -303,13 +303,13 @@ func scanGuard(c *core.Ctx) []ob {
 								}
 								// ordering comparisons: the sides matter, and the mirrored spelling (b > a for a < b) is the same test
 								lx, ly := exprString(v.X)+" ; "+expandLocals(fd, is.Cond, v.X, 0), exprString(v.Y)+" ; "+expandLocals(fd, is.Cond, v.Y, 0)
-							if len(sub) > 0 {
-								for pn, at := range sub {
-									re := regexp.MustCompile(`\b` + regexp.QuoteMeta(pn) + `\b`)
-									lx += " ; " + re.ReplaceAllString(lx, strings.ReplaceAll(at, "$", "$$"))
-									ly += " ; " + re.ReplaceAllString(ly, strings.ReplaceAll(at, "$", "$$"))
+								if len(sub) > 0 {
+									for pn, at := range sub {
+										re := regexp.MustCompile(`\b` + regexp.QuoteMeta(pn) + `\b`)
+										lx += " ; " + re.ReplaceAllString(lx, strings.ReplaceAll(at, "$", "$$"))
+										ly += " ; " + re.ReplaceAllString(ly, strings.ReplaceAll(at, "$", "$$"))
+									}
 								}
-							}
 								mirror := map[token.Token]token.Token{token.LSS: token.GTR, token.GTR: token.LSS, token.LEQ: token.GEQ, token.GEQ: token.LEQ}
 								if v.Op == o && strings.Contains(lx, g.tokens[0]) && strings.Contains(ly, g.tokens[1]) {
 									opOK = true
